@@ -178,3 +178,7 @@ pub uninterp spec fn is_usize_text(s: Seq<char>) -> bool;
 pub fn verif_parse_usize_unwrap(s: &str) -> (r: usize)
     requires is_usize_text(s@)
 { s.parse::<usize>().unwrap() }
+
+// HashSet::is_disjoint (std): no common element
+pub assume_specification<T: std::cmp::Eq + std::hash::Hash, S: std::hash::BuildHasher, A: std::alloc::Allocator> [std::collections::HashSet::<T, S, A>::is_disjoint] (a: &HashSet<T, S, A>, b: &HashSet<T, S, A>) -> (r: bool)
+    ensures r == a@.disjoint(b@);
